@@ -361,6 +361,9 @@ def run_one(ctx, case_seed: str) -> None:
     for s, (outgoing, a, active) in tg_info.items():
         raised_before = False
         exp_order = []
+        # dispatch stopped at a raising callback <=> nothing at all was called after the first raising one
+        first_raiser = next((k for k, cid in enumerate(active) if got.get((cid, s)) and specs[cid]["raises"]), None)
+        stopped_at_raiser = first_raiser is not None and not any(got.get((cid, s)) for cid in active[first_raiser + 1:])
         for cid in active:
             spec = specs[cid]
             exp, how = ref_cb_matches(spec, a, outgoing, notation)
@@ -377,7 +380,7 @@ def run_one(ctx, case_seed: str) -> None:
             if exp:
                 exp_order.append(cid)
                 if n == 0:
-                    mech = ("callback-skipped-after-raising-callback" if raised_before
+                    mech = ("callback-skipped-after-raising-callback" if raised_before and stopped_at_raiser
                             else f"callback-missed-matching-telegram-{how}-{'outgoing' if outgoing else 'incoming'}")
                     ctx.violation(mech, w, f"callback {cid} ({how}) not called for {'outgoing' if outgoing else 'incoming'} telegram to {a}")
                 elif n > 1:
@@ -404,7 +407,7 @@ def run_one(ctx, case_seed: str) -> None:
         exp_devs = state["devs"].get(a, [])
         seen = dev_seen.get(s, [])
         if [id(d) for d in seen] != [id(d) for d in exp_devs]:
-            mech = "device-processing-skipped-after-raising-callback" if raised_before else "device-processing-differs"
+            mech = "device-processing-skipped-after-raising-callback" if raised_before and not seen else "device-processing-differs"
             ctx.violation(mech, dict(wit, seq=s, addr=a, expected=[d.name for d in exp_devs], got=[d.name for d in seen]),
                           f"telegram to {a}: devices {[d.name for d in seen]} processed it, expected {[d.name for d in exp_devs]}")
         elif exp_devs:
@@ -446,7 +449,7 @@ def run(ctx):
                 "called_after_a_raising_callback", "device_processed_after_raising_callback", "unregistered_between_bursts",
                 "registered_between_bursts")
     selftest(ctx)
-    n = ctx.scale(1500, 160000)
+    n = ctx.scale(1500, 96000)
     for i in range(n):
         if ctx.mine(i):
             run_one(ctx, f"C34/{ctx.seed}/{i}")
